@@ -155,6 +155,17 @@ var c07Havings = []c07Having{
 		return (n > 2 || !(n > 1)) && n < 3
 	}},
 	{"avg(v) > 1 AND max(v) < 5", nil, func(g c07Group, v map[string]*float64) bool { return gt(c07Agg(g, ref.Mean), 1) && lt(c07Agg(g, ref.Max), 5) }},
+	// flat chains that mix OR and AND without parentheses (AND binds tighter)
+	{"count(*) >= 3 OR count(*) >= 1 AND count(v) < 2", nil, func(g c07Group, v map[string]*float64) bool {
+		n, nv := len(g.V), 0
+		for _, x := range g.V {
+			if x.Present && !x.Null {
+				nv++
+			}
+		}
+		return n >= 3 || n >= 1 && nv < 2
+	}},
+	{"s > 6 OR s > 2 AND count(*) >= 2", []int{0}, func(g c07Group, v map[string]*float64) bool { return gt(v["s"], 6) || gt(v["s"], 2) && len(g.V) >= 2 }},
 }
 
 type c07Order struct {
